@@ -32,6 +32,17 @@ def run(v, prefixes=("C08",), pid="C08"):
             n_model += 1
             if pid == "C09" and len(ids) > 1:
                 events.append(cp.compact_event(cp.permuted(ids, rng), model))     # a second order / duplication
+    # the client-session model, exhaustively for short sessions: the covered region under every operation
+    scfg = open(d + "/MC_Session_small.cfg").read()
+    if not quick:
+        scfg = scfg.replace("MaxSteps = 4", "MaxSteps = 5")
+    open(d + "/MC_Session_small.cfg", "w").write(scfg)
+    sres = core.run_tlc(d, "A5Session", cfg="MC_Session_small.cfg", timeout=3000)
+    core.require_clean(sres, "MC_Session_small", allow_violation=True)
+    v.add_tlc("MC_Session_small", sres, {"MaxLen": 14, "MaxR": 3, "MaxSteps": 4 if quick else 5,
+                                         "properties": "CoverLemma, CanonIdempotent, CompactKeepsCover, SameCoverOps, CoarsenGrows, DropShrinks"})
+    if sres.violated or "violated" in sres.out:
+        v.drift.append({"what": "A5Session design-level property violated in the model", "detail": sres.violated or "temporal property"})
     # negative control of the model: plain numeric order must fail AlgIsCanon in TLC (defect fixed by be0dab5)
     neg = cp.run_universe(d, "U1", mode="numeric", timeout=600, dump=False)
     v.add_tlc("MC_Compact_U1_numeric(negative control)", neg, {"SortMode": "numeric", "expected": "AlgIsCanon violated", "violated": neg.violated})
